@@ -10,8 +10,9 @@ import StoneVerif.Model.FeCompile
       | `{"k":"alias","name":s,"ref":R}`
       | `{"k":"route","name":s,"version":int,"arg":R,"result":R,"error":R|null,"deprecated":null|{"by":null|[name,version]}}`
       | `{"k":"patch","name":s,"struct":b,"closed":b,"fields":[F,..]}`
-      | `{"k":"import","target":s}` | `{"k":"annot","name":s}` | `{"k":"annot_type","name":s}`
-  `F` = `{"name":s,"ty":R|null,"has_default":b}`
+      | `{"k":"import","target":s}` | `{"k":"annot","name":s,"kind":"deprecated"|"omitted"|"preview"|"redacted"|"custom"}`
+      | `{"k":"annot_type","name":s}` | `{"k":"alias_annots","name":s,"annots":[[ns|null,name],..]}`
+  `F` = `{"name":s,"ty":R|null,"has_default":b,"annots":[[ns|null,name],..]}`
   `R` = `{"ns":s|null,"name":s,"pos":[A,..],"kw":[[key,L],..],"nullable":b}`; `A` = `L` | `{"ref":R}`;
   `L` = literal in the encoding of `fe.params` (`{"int":"<dec>"}`, `{"float":..}`, `{"str":s}`, `{"bool":b}`, `{"null":true}`)
   reply `{"out":"ok","api":..,"closed":b}` | `{"out":"error","kind":k}`;
@@ -71,8 +72,32 @@ def optRef (j : Json) (k : String) : Except String (Option TRef) :=
   | some v => do pure (some (← refOfJson v))
   | none => pure none
 
+def arefOfJson (j : Json) : Except String ARef := do
+  match j with
+  | .arr #[n, a] =>
+    let ns ← match n with
+      | .null => pure none
+      | v => do pure (some (← v.getStr?))
+    pure { ns, name := ← a.getStr? }
+  | _ => throw "annotation reference [ns|null, name] expected"
+
+def annotsOf (j : Json) (k : String) : Except String (List ARef) :=
+  match jopt j k with
+  | some v => do (← v.getArr?).toList.mapM arefOfJson
+  | none => pure []
+
+def annotKindOf (s : String) : Except String AnnotKind :=
+  match s with
+  | "deprecated" => pure .deprecated
+  | "omitted" => pure .omitted
+  | "preview" => pure .preview
+  | "redacted" => pure .redacted
+  | "custom" => pure .custom
+  | _ => throw s!"unknown annotation kind {s}"
+
 def fieldOfJson (j : Json) : Except String AField := do
-  pure { name := ← jstr j "name", ty := ← optRef j "ty", hasDefault := ← jbool j "has_default" }
+  pure { name := ← jstr j "name", ty := ← optRef j "ty", hasDefault := ← jbool j "has_default",
+         annots := ← annotsOf j "annots" }
 
 def declOfJson (j : Json) : Except String Decl := do
   let k ← jstr j "k"
@@ -105,7 +130,8 @@ def declOfJson (j : Json) : Except String Decl := do
     let kind : TypeKind := if isStruct then .struct else .union closed
     pure (.patch { name := ← jstr j "name", kind, fields })
   | "import" => pure (.imp (← jstr j "target"))
-  | "annot" => pure (.annot (← jstr j "name"))
+  | "annot" => pure (.annot (← jstr j "name") (← annotKindOf (← jstr j "kind")))
+  | "alias_annots" => pure (.aliasAnnots (← jstr j "name") (← annotsOf j "annots"))
   | "annot_type" => pure (.annotType (← jstr j "name"))
   | _ => throw s!"unknown declaration kind {k}"
 
@@ -212,7 +238,14 @@ def legalWhy (rx : String → Bool) (fs0 : List File) : String :=
     | some (ns, .type d) => "type." ++ typeWhy rx fs ns d
     | some (_, .alias _ _) => "alias"
     | some (_, .route _) => "route"
-    | _ => "?"
+    | some _ => "?"
+    | none =>
+      match (allPairs fs).findSome? (fun p =>
+          match declAnnots (raS fs) (aliasS rx fs) (typeS rx fs) (aliasRedacted (raS fs) fs) (fuelA fs) p.1 p.2 with
+          | .error e => some e
+          | .ok _ => none) with
+      | some e => "annotations." ++ errName e
+      | none => "?"
 
 /-- the hypotheses of the theorems of Props/C02Compile.lean and Props/C01Compile.lean and their decidable conclusions,
 evaluated on one input: `compile fs = .ok api`, `Legal fs`, namespace names without `/` -/
